@@ -29,7 +29,7 @@ import logging
 logger = logging.getLogger(__name__)
 
 from spyne import MethodContext, BODY_STYLE_BARE, ComplexModelBase, \
-    BODY_STYLE_EMPTY, Ignored
+    BODY_STYLE_EMPTY, Ignored, Array
 
 from spyne.client import Factory
 from spyne.const.ansi_color import LIGHT_RED
@@ -149,7 +149,12 @@ class _FunctionCall(object):
                     ctx.in_object[i] = val
 
             if ctx.descriptor.body_style == BODY_STYLE_BARE:
-                ctx.in_object = in_message \
+                if issubclass(in_message, Array):
+                    # the argument is the sequence itself
+                    ctx.in_object = ctx.in_object[0]
+
+                else:
+                    ctx.in_object = in_message \
                                       .get_serialization_instance(ctx.in_object)
 
             if cnt == 0:
